@@ -33,6 +33,9 @@ RULE = (
     "with 2/4/16 workers and switch interval 1e-5; reversed and random submission order; one score at a time, synchronous and threaded). "
     "Cross-validators and train_test_split are driven with random_state as an int, a numpy RandomState instance and None (global generator, "
     "re-seeded so that serial / delayed / respelled replays are well defined); the splits judged are those the cv object actually yielded. "
+    "UTM stream: BlockKFold / BlockShuffleSplit (shape | spacing) on eastings ~5e5, northings ~7.5e6 with a third of the points moved to "
+    "0.01-10 m from interior block edges; the features handed to a cross-validator must be the float64 coordinates and the splits used are "
+    "replayed on the harness's own float64 feature matrix wherever the cross-validator is deterministic. "
     "Defaults stream: SplineCV(), cross_val_score(est, c, d), score(c, d), train_test_split(c, d) must behave like the same call with the "
     "documented defaults spelled out (the taps bind omitted arguments to the documented default). Scorer objects (make_scorer / get_scorer / "
     "hand-written callable) are forced into SplineCV; the lazy scores of several cross_val_score calls are also computed in one dask graph. "
@@ -92,6 +95,9 @@ FLOORS = {
                      "class:splinecv:engine:numpy": 1, "class:splinecv:scoring_with_weights": 2, "class:splinecv:several_mindists": 1,
                      "class:delayed_spelling:bool": 2},
                   **{"class:scoring_spelling:" + k: 4 for k in ("none", "string", "get_scorer", "make_scorer", "plain_callable")},
+                  # blocked cross-validators on UTM-like coordinates with points next to block edges; replayed splits
+                  **{"eval:splits_are_those_of_the_float64_coordinates": 40, "class:utm:points_moved_next_to_block_edges": 50,
+                     "class:utm:cv:BlockKFold": 1, "class:utm:cv:BlockShuffleSplit": 1, "cases:utm": 8},
                   # documented defaults relied upon, scorer objects in SplineCV, several calls in one dask graph
                   **{"eval:defaults:" + k: 1 for k in ("SplineCV_constructor", "SplineCV_fit", "cross_val_score", "score", "train_test_split")},
                   **{"class:splinecv:scorer_object:" + k: 1 for k in ("make_scorer", "get_scorer", "plain_callable")},
@@ -129,6 +135,8 @@ FLOORS = {
         **{"class:tts_sizes:%s:%s" % (m, k): 68 for m in ("plain", "blocked") for k in W.SIZE_MODES}, **{"eval:split_sizes": 800},
         **{"class:random_state:tts:%s:%s" % (k, m): 160 for k in W.RS_KINDS for m in ("plain", "blocked")},
         **{"class:random_state:cv:" + k: 200 for k in W.RS_KINDS},
+        **{"eval:splits_are_those_of_the_float64_coordinates": 1500, "class:utm:points_moved_next_to_block_edges": 900,
+           "class:utm:cv:BlockKFold": 25, "class:utm:cv:BlockShuffleSplit": 25},
         **{"eval:defaults:" + k: 38 for k in ("SplineCV_constructor", "SplineCV_fit", "cross_val_score", "score", "train_test_split")},
         **{"class:splinecv:scorer_object:" + k: 16 for k in ("make_scorer", "get_scorer", "plain_callable")},
         **{"eval:several_calls_in_one_graph": 400, "defaulted_argument:cross_val_score.cv": 76, "defaulted_argument:cross_val_score.scoring": 76},
@@ -202,8 +210,8 @@ CASE_TIMEOUT_S = 300
 
 def plan(tier):
     if tier == "quick":
-        return collections.OrderedDict(cv=38, score=12, tts=10, splinecv=12, history=8, lazyscan=12, defaults=4)
-    return collections.OrderedDict(cv=1600, score=400, tts=400, splinecv=480, client=32, history=320, lazyscan=256, defaults=96)
+        return collections.OrderedDict(cv=38, score=12, tts=10, splinecv=12, history=8, lazyscan=12, defaults=4, utm=8)
+    return collections.OrderedDict(cv=1600, score=400, tts=400, splinecv=480, client=32, history=320, lazyscan=256, defaults=96, utm=128)
 
 
 def install(tap, run):
@@ -225,6 +233,8 @@ def run_case(run, tap, stream, index, rng):
                 W.case_tts(run, rng, vd, index)
             elif stream == "splinecv":
                 W.case_splinecv(run, rng, vd, index=index)
+            elif stream == "utm":
+                W.case_utm(run, rng, vd, index)
             elif stream == "defaults":
                 W.case_defaults(run, rng, vd, index)
             elif stream == "lazyscan":
